@@ -13,7 +13,7 @@ MODEL_TARGETS = ['theories/Model/InsCost.vo', 'theories/Model/GoalCtx.vo']
 MODEL_NEEDS_IMPL = True      # the state vectors of the solutions (values of the objectives) are what the main context reports
 SHARD = 40
 SIZES = {'quick': 260, 'thorough': 6000, 'search': 3000}
-RULE = ('cases: pragmatic problem documents (1-3 vehicle types with own start location, 2-4 delivery jobs, explicit routing matrix '
+RULE = ('cases: (7 of 8) pragmatic problem documents (1-3 vehicle types with own start location, 2-4 delivery jobs, explicit routing matrix '
         'with entries over six orders of magnitude, half of them clustered so that "one long tour" and "two short tours" conflict) '
         'whose `objectives` section is absent (default objectives, with / without job values) or a random list of plain objectives '
         '(15 of the 16 types: all but hierarchical-areas) with 0-2 `multi-objective` layers (2-3 inner objectives, strategy `sum` or `weighted-sum` with random weights; '
@@ -23,9 +23,13 @@ RULE = ('cases: pragmatic problem documents (1-3 vehicle types with own start lo
         'goal context, the context returned by maybe_new without a hit, the built-in alternative and an alternative of the '
         'alternative; up to 3 moves per document (an unassigned job into a used or an unused tour, route level and activity level) '
         'whose InsertionCost estimate under every context is compared with the model applied to the estimates of the single '
-        'objectives (read off the twin document that lists the same objectives as single layers). '
+        'objectives (read off the twin document that lists the same objectives as single layers); (1 of 8) small Solomon / TSPLIB texts '
+        'read by the real vrp-scientific readers (goal contexts prefer-min-tours / distance-only), 3-6 solutions, every pair under the '
+        'main context, the built-in alternative, the configured alternative and an alternative of it. '
         'non-trivial = distinct documents with a pair the main goal orders strictly.')
-TRUSTED = ['c09_reader: the values of the objectives of a solution are taken from the fitness vector the MAIN goal context reports '
+TRUSTED = ['c09_reader: for the scientific readers the state vector (unassigned, tours, distance) of a solution is read off the '
+           'fitness the built-in alternative reports (positions 0, 2, 3); the model predicts every order and every other vector',
+           'c09_reader: the values of the objectives of a solution are taken from the fitness vector the MAIN goal context reports '
            '(theorem C09_reader_main_fitness: in the model that vector is the identity on the state vector); the model predicts '
            'from them every order and the vector every other context reports',
            'c09_reader: the solutions are built by harness/src/bin/c09_reader.rs through eval_job_insertion_in_route + accept_insertion',
@@ -284,32 +288,50 @@ def model_term(c, impl):
     if 'panic' in impl:
         return None
     if 'sci' in c:
-        return with_solutions(impl, '(run_sci %s %s %s, @nil (list Z))' % (
-            'false' if c['sci']['fmt'] == 'tsplib' else 'true', paths_term(c['paths']), pairs_term(c, impl)))
+        return '(run_sci %s %s %s %s, @nil (list Z))' % (
+            'false' if c['sci']['fmt'] == 'tsplib' else 'true', paths_term(c['paths']), sols_term(impl), pairs_term(c, impl))
     if c['objectives'] is None:
         objs = 'None'
     else:
         objs = '(Some [' + '; '.join('(%s, %s, %s)' % (z(t), 'None' if s is None else '(Some %s)' % zlist(s), zlist(i))
                                      for t, s, i in encode_objectives(c['objectives'])) + '])'
     hv = 'true' if has_value(c) else 'false'
-    body = ('((fun (objs : option (list (Z * option (list Z) * list Z))) (ps : list (list (Z * Z))) => '
-            '(run_reader objs %s ps %s, run_reader_est objs %s ps (%s : list (list Z)))) %s %s)' % (
-                hv, pairs_term(c, impl), hv, '[' + '; '.join(zlist(e) for e in move_vectors(impl)) + ']', objs, paths_term(c['paths'])))
-    return with_solutions(impl, body)
+    # every literal is written once: (fun objs ps => ..) <objs> <paths> (a `let` chain makes Coq's elaboration blow up)
+    return ('((fun (objs : option (list (Z * option (list Z) * list Z))) (ps : list (list (Z * Z))) => '
+            '(run_reader objs %s ps %s %s, run_reader_est objs %s ps (%s : list (list Z)))) %s %s)' % (
+                hv, sols_term(impl), pairs_term(c, impl), hv, '[' + '; '.join(zlist(e) for e in move_vectors(impl)) + ']',
+                objs, paths_term(c['paths'])))
 
 
-def with_solutions(impl, body):
-    """every state vector is written once: (fun s0 s1 .. : list Z => body) [..] [..] (a `let` chain makes Coq's elaboration blow up)"""
-    fit = impl.get('fit', [])
-    if not fit:
-        return body
-    return '((fun %s : list Z => %s) %s)' % (' '.join('s%d' % k for k in range(len(fit))), body,
-                                             ' '.join(zlist([int(x) for x in f]) for f in fit))
+def sols_term(impl):
+    return '([' + '; '.join(zlist([int(x) for x in f]) for f in impl.get('fit', [])) + '] : list (list Z))'
 
 
 def pairs_term(c, impl):
-    pairs = ['(s%d, s%d)' % (i, j) for i, j in c['pairs']] if 'fit' in impl else []
-    return '([' + '; '.join(pairs) + '] : list (list Z * list Z))'
+    pairs = ['(%d, %d)' % (i, j) for i, j in c['pairs']] if 'fit' in impl else []
+    return '([' + '; '.join(pairs) + '] : list (Z * Z))'
+
+
+def expand(c, impl, model):
+    """the model reports the orders per (pair, path) and the fitness vectors per (path, solution) once; the rows the harness
+    observes are [orders; fitness a; fitness b] per (pair, path)"""
+    orders, fits = model
+    if 'fit' not in impl:
+        return orders                      # a reader error: [[-1, code]]
+    np_, ns = len(c['paths']), len(impl['fit'])
+    per_path, pos = [], 0
+    for q in range(np_):
+        if pos < len(fits) and len(fits[pos]) == 2 and fits[pos][0] == -1 and not impl['fit']:
+            per_path.append(None)
+            pos += 1
+        else:
+            per_path.append(fits[pos:pos + ns])
+            pos += ns
+    out = []
+    for pi, (i, j) in enumerate(c['pairs']):
+        for q in range(np_):
+            out += [orders[pi * np_ + q], per_path[q][i], per_path[q][j]]
+    return out
 
 
 def move_vectors(impl):
@@ -340,7 +362,8 @@ def norm(obs):
 def compare(c, impl, model):
     if 'panic' in impl:
         return 'implementation panicked: %s' % impl['panic']
-    model, mest = model
+    orders, fits, mest = model            # Coq prints ((orders, fits), estimates) as a flat triple
+    model = expand(c, impl, (orders, fits))
     got = norm(impl['obs'])
     if 'err' not in impl:
         gest = move_rows(impl)
